@@ -310,3 +310,213 @@ def check_shared_state(ctx: Ctx, files: List[str]):
     ctx.ok("G.3", f"{len(relfiles)} anchor file(s)", f"{n3} summarised functions scanned; positive fixture reported")
     ctx.ok("G.1", f"{len(relfiles)} anchor file(s)", f"{n} functions scanned; positive fixture reported")
     ctx.ok("G.2", f"{len(relfiles)} anchor file(s)", "classes of the anchor files scanned; positive fixture reported")
+
+
+# ---------------------------------------------------------------------------------- G.4 / G.5 declarations
+# Declarations are data the run-time acts on: the order and defaults of a public function's parameters are its calling
+# convention, a model's config / field types / Field constraints are what pydantic validates with.  A deviation from the
+# declarations of the reference tree (sa/pinned_decls.json, generated by tools/gen_pinned_decls.py on a tree on which every
+# check passes) changes behaviour by construction: positional callers bind other parameters, default calls compute with
+# other values, inputs are coerced / rejected / transformed differently.  Additions (a new trailing parameter, a new
+# field) are not deviations.
+
+PYDANTIC_CONFIG_DEFAULTS = {"extra": "ignore", "frozen": False, "str_strip_whitespace": False, "str_to_lower": False, "str_to_upper": False,
+                            "validate_assignment": False, "from_attributes": False, "populate_by_name": False, "strict": False,
+                            "arbitrary_types_allowed": False, "use_enum_values": False, "validate_default": False, "revalidate_instances": "never",
+                            "coerce_numbers_to_str": False, "protected_namespaces": ("model_",)}
+CONSTRAINT_KEYS = ("ge", "gt", "le", "lt", "min_length", "max_length", "min_items", "max_items", "pattern", "regex", "multiple_of", "strict",
+                   "allow_inf_nan", "max_digits", "decimal_places", "frozen", "alias", "validation_alias", "serialization_alias", "exclude")
+
+
+def _term_json(t):
+    if isinstance(t, tuple):
+        return [_term_json(c) for c in t]
+    if isinstance(t, frozenset):
+        return {"__fs__": sorted(repr(c) for c in t)}
+    if isinstance(t, float) and t != t:
+        return "nan"
+    if isinstance(t, (bytes, complex)) or t is Ellipsis:
+        return repr(t)
+    return t
+
+
+def func_decl(index, module, node, cls):
+    """{"pos": [positional parameter names in order], "kwonly": [...], "defaults": {name: term}} of a def"""
+    from sa.sym import Evaluator
+    a = node.args
+    pos = [p.arg for p in list(a.posonlyargs) + list(a.args)]
+    kwonly = [p.arg for p in a.kwonlyargs]
+    ev = Evaluator(index, module, node, f"{module.name}:{node.name}", cls)
+    defaults = {}
+    allp = list(a.posonlyargs) + list(a.args)
+    for p, d in zip(allp[len(allp) - len(a.defaults):], a.defaults):
+        try:
+            defaults[p.arg] = _term_json(ev.ev_quiet(d))
+        except Exception:  # noqa: BLE001 - a default the engine cannot read is compared as text
+            defaults[p.arg] = ["text", ast.unparse(d)]
+    for p, d in zip(a.kwonlyargs, a.kw_defaults):
+        if d is not None:
+            try:
+                defaults[p.arg] = _term_json(ev.ev_quiet(d))
+            except Exception:  # noqa: BLE001
+                defaults[p.arg] = ["text", ast.unparse(d)]
+    return {"pos": pos, "kwonly": kwonly, "defaults": defaults, "vararg": bool(a.vararg), "kwarg": bool(a.kwarg)}
+
+
+def _const_of(node):
+    try:
+        return _term_json(ast.literal_eval(node))
+    except Exception:  # noqa: BLE001
+        return ["text", ast.unparse(node)]
+
+
+def model_decl(index, models, ci):
+    cfg = {k: _const_of(v) for k, v in models.model_config(ci).items()}
+    cfg = {k: v for k, v in cfg.items() if PYDANTIC_CONFIG_DEFAULTS.get(k, object()) != v and not (isinstance(v, list) and tuple(v) == PYDANTIC_CONFIG_DEFAULTS.get(k))}
+    fields = {}
+    for f in models.fields(ci):
+        meta = []
+        ann = f.ann
+        if isinstance(ann, ast.Subscript) and ast.unparse(ann.value).split(".")[-1] == "Annotated" and isinstance(ann.slice, ast.Tuple):
+            meta = [ast.unparse(x) for x in ann.slice.elts[1:]]
+        fields[f.name] = {"shape": _term_json(f.shape), "meta": meta,
+                          "constraints": {k: _const_of(v) for k, v in f.field_kwargs.items() if k in CONSTRAINT_KEYS},
+                          "default": None if f.default is None else _const_of(f.default),
+                          "factory": None if f.default_factory is None else ast.unparse(f.default_factory)}
+    return {"config": cfg, "fields": fields}
+
+
+def _load_decls():
+    import json
+    p = os.path.join(os.path.dirname(os.path.dirname(os.path.abspath(__file__))), "sa", "pinned_decls.json")
+    try:
+        with open(p) as f:
+            return json.load(f)
+    except OSError:
+        return None
+
+
+def check_declarations(ctx: Ctx, files: List[str]):
+    from sa.index import pick_def
+    ref = _load_decls()
+    ctx.rule("G.4", "public signatures keep the reference's positional order and default values", 1)
+    ctx.rule("G.5", "model declarations (config, field types, constraints, defaults) agree with the reference", 1)
+    if ref is None:
+        ctx.undec("G.4", "sa/pinned_decls.json", "reference declaration table missing")
+        return
+    index, models = ctx.index, ctx.models
+    mods = [m for m in index.modules.values() if m.relpath in files]
+    # one hop: model classes named in the annotations of the public functions of the anchor files
+    extra_classes = {}
+    n_f = n_m = 0
+    for m in mods:
+        units = [(name, None, pick_def([d for d in defs if isinstance(d, ast.FunctionDef)])) for name, defs in m.defs.items()
+                 if any(isinstance(d, ast.FunctionDef) for d in defs)]
+        for ci in m.classes.values():
+            units += [(f"{ci.name}.{mn}", ci, pick_def(fns)) for mn, fns in ci.methods.items()]
+        for qn, ci, fn in units:
+            leaf = qn.split(".")[-1]
+            public = not leaf.startswith("_") or leaf in ("__init__", "__call__")
+            if public:
+                for p in list(fn.args.posonlyargs) + list(fn.args.args) + list(fn.args.kwonlyargs):
+                    if p.annotation is not None:
+                        for x in ast.walk(p.annotation):
+                            if isinstance(x, (ast.Name, ast.Attribute)):
+                                try:
+                                    sy = index.resolve_expr(m, x)
+                                except Exception:  # noqa: BLE001
+                                    sy = None
+                                if sy is not None and sy.kind == "class" and ":" in sy.qual:
+                                    c2 = index.class_by_qual(sy.qual)
+                                    if c2 is not None and models.is_model(c2):
+                                        extra_classes[c2.qual] = c2
+            r = ref["functions"].get(f"{m.name}:{qn}")
+            if r is None or not public:
+                continue
+            n_f += 1
+            cur = func_decl(index, m, fn, ci)
+            site = f"{m.relpath}:{fn.lineno} {qn}"
+            if cur["pos"][:len(r["pos"])] != r["pos"] and not (set(r["pos"]) <= set(cur["pos"] + cur["kwonly"]) and False):
+                moved = [p for i, p in enumerate(r["pos"]) if i >= len(cur["pos"]) or cur["pos"][i] != p]
+                ctx.bad("G.4", m.relpath, qn, f"def {leaf}({', '.join(cur['pos'])})",
+                        f"the positional parameters of {qn} are ({', '.join(cur['pos'])}) but callers were written against "
+                        f"({', '.join(r['pos'])}): a positional argument now binds `{moved[0]}`'s slot to another parameter "
+                        f"(keyword-only callers do not notice, which is why nothing in the package fails)", fn.lineno,
+                        witness={"reference_order": r["pos"], "current_order": cur["pos"]})
+                continue
+            bad_default = None
+            for p, dv in r["defaults"].items():
+                if p in cur["defaults"] and cur["defaults"][p] != dv:
+                    bad_default = (p, dv, cur["defaults"][p])
+                    break
+                if p not in cur["defaults"] and p in cur["pos"] + cur["kwonly"]:
+                    bad_default = (p, dv, "<required>")
+                    break
+            if bad_default:
+                p, dv, cv = bad_default
+                ctx.bad("G.4", m.relpath, qn, f"{p}={_show_json(cv)}",
+                        f"the default of `{p}` in {qn} is {_show_json(cv)} where the reference declares {_show_json(dv)}: every call that "
+                        f"relies on the default now computes with another value", fn.lineno,
+                        witness={"parameter": p, "reference_default": _show_json(dv), "current_default": _show_json(cv)})
+            else:
+                ctx.ok("G.4", site, "positional order and defaults as on the reference")
+    classes = {}
+    for m in mods:
+        for ci in m.classes.values():
+            if models.is_model(ci):
+                classes[ci.qual] = ci
+    classes.update(extra_classes)
+    for q, ci in sorted(classes.items()):
+        r = ref["models"].get(q)
+        if r is None:
+            continue
+        n_m += 1
+        cur = model_decl(index, models, ci)
+        site = f"{ci.module.relpath}:{ci.node.lineno} {ci.name}"
+        problems = []
+        for k in sorted(set(r["config"]) | set(cur["config"])):
+            if r["config"].get(k) != cur["config"].get(k):
+                problems.append((ci.node.lineno, f"model_config[{k!r}] = {_show_json(cur['config'].get(k, '<pydantic default>'))}",
+                                 f"model_config option `{k}` of {ci.name} is {_show_json(cur['config'].get(k, '<pydantic default>'))} where the reference "
+                                 f"declares {_show_json(r['config'].get(k, '<pydantic default>'))}: pydantic validates, coerces or freezes instances of this model differently"))
+        for fname, rf in r["fields"].items():
+            cf = cur["fields"].get(fname)
+            if cf is None:
+                continue  # removal of a field is the business of the field-flow rules
+            line = models.field_map(ci)[fname].node.lineno
+            if cf["shape"] != rf["shape"] or cf["meta"] != rf["meta"]:
+                problems.append((line, f"{fname}: {ast.unparse(models.field_map(ci)[fname].ann)[:60]}",
+                                 f"the declared type of {ci.name}.{fname} is `{ast.unparse(models.field_map(ci)[fname].ann)[:80]}`; the reference declares "
+                                 f"{_show_shape(rf)}: pydantic accepts, coerces or transforms other values for this field"))
+            elif cf["constraints"] != rf["constraints"]:
+                problems.append((line, f"{fname}: Field({', '.join(f'{k}={_show_json(v)}' for k, v in cf['constraints'].items())})",
+                                 f"the constraints of {ci.name}.{fname} are {cf['constraints']} where the reference declares {rf['constraints']}"))
+            elif cf["default"] != rf["default"] or cf["factory"] != rf["factory"]:
+                problems.append((line, f"{fname} default = {_show_json(cf['default'])}",
+                                 f"the default of {ci.name}.{fname} is {_show_json(cf['default'] if cf['factory'] is None else cf['factory'])} where the reference "
+                                 f"declares {_show_json(rf['default'] if rf['factory'] is None else rf['factory'])}"))
+        for line, construct, msg in problems:
+            ctx.bad("G.5", ci.module.relpath, ci.name, construct, msg, line)
+        if not problems:
+            ctx.ok("G.5", site, "config, field types, constraints and defaults as on the reference")
+    ctx.ok("G.4", f"{len(files)} anchor file(s)", f"{n_f} public signatures compared with the reference")
+    ctx.ok("G.5", f"{len(files)} anchor file(s)", f"{n_m} model classes compared with the reference")
+
+
+def _show_json(v):
+    if isinstance(v, list):
+        try:
+            from sa.alias import from_json
+            return show(from_json(v))[:60]
+        except Exception:  # noqa: BLE001
+            return str(v)[:60]
+    return repr(v)[:60]
+
+
+def _show_shape(rf):
+    from sa.alias import from_json
+    from sa.models import shape_str
+    try:
+        return shape_str(from_json(rf["shape"])) + (f" with {rf['meta']}" if rf["meta"] else "")
+    except Exception:  # noqa: BLE001
+        return str(rf["shape"])[:60]
